@@ -907,6 +907,7 @@ def r5_uri_helpers(run):
     cfg = cfg_of(g, p)
     run.use_cfg(cfg)
     vparam = g.params()[0]
+    prov5 = Provenance(p, g, vparam)
     n_rets = 0
     for n in cfg.live_nodes():
         if n.kind != 'stmt' or not isinstance(n.ast, ast.Return) or n.ast.value is None:
@@ -924,11 +925,17 @@ def r5_uri_helpers(run):
         t = _template(n.ast.value)
         if t is None:
             raise UnknownIdiom('%s: cannot read the template of %s' % (g.qual, short(n.ast.value)))
-        raw = [x for x in t if not isinstance(x, str) and any(isinstance(y, ast.Name) and y.id == vparam for y in ast.walk(x))]
+        # holes that carry the name: the parameter, or a local built from it (whether the local still is the whole
+        # name is R15's clause; here only the encoder in front of it is judged)
+        def carries(x, nid=n.id):
+            return any(isinstance(y, ast.Name) and y.id == vparam for y in ast.walk(x)) or prov5.classify_any(x, nid).derived
+
+        raw = [x for x in t if not isinstance(x, str) and carries(x)]
         ok = bool(raw)
         star = False
         for x in raw:
-            if isinstance(x, ast.Call) and len(x.args) == 1 and isinstance(x.args[0], ast.Name) and x.args[0].id == vparam:
+            if isinstance(x, ast.Call) and len(x.args) == 1 and not x.keywords and carries(x.args[0]) \
+                    and not any(isinstance(y, ast.Call) for y in ast.walk(x.args[0])):
                 q = _callee_qual(p, g, x)
                 i = t.index(x)
                 before = ''.join(y for y in t[:i] if isinstance(y, str)) if all(isinstance(y, str) for y in t[i - 1:i]) else ''
